@@ -103,6 +103,8 @@ class ZEval:
         q = Fraction(q)
         if q.denominator == 1:
             n = q.numerator
+            if n == 0:
+                self.defd.append(b != 0)       # 0 ^ 0 has no agreed value: outside the claim
             if n >= 0:
                 return self.ipow(b, n)
             self.defd.append(b != 0)
